@@ -414,6 +414,22 @@ def run_history(ct, net, ssa0, abstract_ops, seed, arrays=None):
     trace = {"net": net.tla(), "init": o0["snap"], "events": []}
     side = []
     side_state = []
+    # "dense" histories: the LIVE object is contracted (and its slice keys read) after every step, so that whatever it
+    # caches for executing itself is filled before the next transformation; the other histories leave the live object alone
+    dense = rng.random() < 0.5
+    res["dense"] = dense
+
+    def live_contract(k, opname):
+        try:
+            key = CONTRACT_KEYS[k % len(CONTRACT_KEYS)]
+            got = np.asarray(tree.contract(arrays, **key))
+            ref_, _ = expected_value(net, tree, arrays)
+            if got.shape != ref_.shape or not np.array_equal(got, ref_):
+                res["findings"].append((k, opname, "value", "tree.contract on the live tree (contracted after every step) returned a wrong value/shape"))
+        except Exception as e:
+            res["findings"].append((k, opname, "raised:live-contract", core.exc_text(e)))
+    if dense:
+        live_contract(0, "init")
     for k, aop in enumerate(abstract_ops, 1):
         state = {"sliced": {net.ix_of(i) for i in tree.sliced_inds}}
         cop = concretise(rng, net, aop, state)
@@ -435,6 +451,8 @@ def run_history(ct, net, ssa0, abstract_ops, seed, arrays=None):
                 res["findings"].append((k, cop["op"], "raised", core.exc_text(e)))
                 break
         o = observe_step(ct, net, tree, arrays)
+        if dense and cop["op"] != "copy":
+            live_contract(k, cop["op"])
         if len(side) > nside:
             # at a copy both objects are in the same state; remember what was observed now
             side_state.append((k, observe.children_of(side[-1]), observe.sliced_of(net, side[-1]),
